@@ -137,6 +137,19 @@ pub fn run(ctx: &Ctx, sh: &mut Shard) {
             IG::Collection((0..n).map(|_| { let m = gen_any(r, g); let d = if r.chance(1, 2) { 0 } else { r.range(-2 * g, 2 * g) }; m.translate(d, r.range(-g, g)) }).collect())
         };
         let p = if k % 4 == 3 { mixed(&mut r) } else { gen_any(&mut r, g) };
+        // one prepared operand in five re-spelt (other type, permuted members, an EMPTY member somewhere, ...)
+        let p = if k % 5 == 2 {
+            let alts = respellings(&mut r, &p);
+            if alts.is_empty() {
+                p
+            } else {
+                let i = r.below(alts.len() as u64) as usize;
+                sh.class(&format!("prepared:spelling:{}", alts[i].0));
+                alts[i].1.clone()
+            }
+        } else {
+            p
+        };
         let npool = r.range(2, 8) as usize;
         let pool: Vec<IG> = (0..npool)
             .map(|_| {
